@@ -172,21 +172,7 @@ Print Assumptions mutator_list_complete.
 Theorem harness_validators_fit :
   forall k x y, vld_of k x = Some y -> dom_of k y = true /\ acc_of k x = true.
 Proof.
-  intros k x y H. split; [|unfold acc_of; rewrite H; reflexivity].
-  destruct k; cbn in *.
-  - reflexivity.
-  - destruct ((0 <=? x) && (x <? 100)) eqn:E; inversion H; subst. exact E.
-  - destruct ((0 <=? x) && (x <? 100)) eqn:E; [inversion H; subst; exact E|].
-    destruct ((100 <=? x) && (x <? 200)) eqn:E2.
-    + inversion H; subst.
-      apply andb_true_iff in E2. destruct E2 as [A B]. apply Z.leb_le in A. apply Z.ltb_lt in B.
-      apply andb_true_iff. split; [apply Z.leb_le|apply Z.ltb_lt]; auto with zarith.
-    + destruct ((300 <=? x) && (x <? 400)) eqn:E3; inversion H; subst.
-      apply andb_true_iff in E3. destruct E3 as [A B]. apply Z.leb_le in A. apply Z.ltb_lt in B.
-      apply andb_true_iff. split; [apply Z.leb_le|apply Z.ltb_lt]; auto with zarith.
-  - destruct ((0 <=? x) && (x <? 90)) eqn:E; inversion H; subst.
-    apply andb_true_iff in E. destruct E as [A B]. apply Z.leb_le in A. apply Z.ltb_lt in B.
-    apply andb_true_iff. split; [apply Z.leb_le|apply Z.ltb_lt]; auto with zarith.
+  intros k x y H. split; [eapply vld_of_dom; exact H|unfold acc_of; rewrite H; reflexivity].
 Qed.
 Print Assumptions harness_validators_fit.
 
